@@ -85,3 +85,24 @@ package payload
 //@ func (*Decoder).GetParts
 //@   ensures descriptors-in-order: len(result) == len(b.meta) && forall(k, 0, len(b.meta), as(result[k], *fileMeta) == b.meta[k])
 //@   loop 0 invariant -1 <= rangeindex && rangeindex < len(b.meta) && len(parts) == len(b.meta) && forall(k, 0, rangeindex+1, as(parts[k], *fileMeta) == b.meta[k]) && forall(k, 0, len(b.meta), b.meta[k] == entry(b.meta[k]))
+
+//@ interface io.Seeker.Seek trusted
+//@   modifies nothing
+
+//@ func (*Encoder).startNextPart
+//@   requires b != nil && b.bin != nil && 0 <= b.partIndex
+//@   ensures  next-part-in-header-order: old(b.partIndex) < len(b.bin.parts) ==> b.partIndex == old(b.partIndex) + 1 && b.binPart == b.bin.parts[old(b.partIndex)] && b.partProgress == 0 && !b.eob == !old(b.eob)
+//@   ensures  end-of-bin: old(b.partIndex) >= len(b.bin.parts) ==> b.eob && r0 == nil && b.partIndex == old(b.partIndex) && b.binPart == old(b.binPart)
+//@   modifies b.partProgress, b.binPart, b.partIndex, b.handle, b.eob, entries(b.bin.times), clock
+//@   before call opener assert opens-the-part-file: arg0 == b.bin.parts[old(b.partIndex)].Binnable
+//@   before call io.Seeker.Seek assert seeks-to-the-part-start: arg1 == b.binPart.beg && arg2 == 0 && arg0 == b.handle
+
+//@ func (*Encoder).Read
+//@   requires b != nil && b.bin != nil && 0 <= b.partIndex && (b.binPart != nil ==> 0 <= b.partProgress && b.partProgress <= b.binPart.end - b.binPart.beg && b.binPart.beg <= b.binPart.end)
+//@   requires forall(k, 0, len(b.bin.parts), b.bin.parts[k] != nil && b.bin.parts[k].beg <= b.bin.parts[k].end)
+//@   on return assert emits-within-part: 0 <= n && n <= len(p)
+//@   before call io.Reader.Read assert reads-at-most-what-is-left-of-the-part: len(arg1) <= bytesLeft && bytesLeft == (b.binPart.end - b.binPart.beg) - b.partProgress && 0 <= bytesLeft && arg0 == b.handle && nn + len(arg1) == n
+//@   before call (*Encoder).startNextPart assert advances-at-the-end-of-the-part: bytesLeft == 0 || n == 0 || err == io.EOF
+//@   on return assert stays-in-the-part-until-done: !called((*Encoder).startNextPart) || ncalls((*Encoder).startNextPart) <= 2
+//@   on return assert progress-is-counted: called(io.Reader.Read) && ncalls((*Encoder).startNextPart) == 0 ==> b.partProgress == old(b.partProgress) + n && b.partProgress < b.binPart.end - b.binPart.beg
+//@   loop 0 invariant 0 <= nn && nn <= n && n <= len(p) && 0 <= n
